@@ -180,7 +180,66 @@ def signature(rec, clauses):
     return "%s:%s:%s:%s:%s" % (rec["m"], "+".join(kinds), where, rec["out"], ",".join(failed))
 
 
+def calibrate(ctx):
+    """The zombie / vanished access matrix simkernel implements, compared with
+    what this kernel does for a real zombie child.  A mismatch is a machinery
+    failure (the trusted base is wrong), never a violation."""
+    import time
+    from harness.simkernel import World
+    pid = os.fork()
+    if pid == 0:
+        os._exit(0)
+    deadline = time.time() + 5
+    while time.time() < deadline:
+        try:
+            if open("/proc/%d/stat" % pid).read().rsplit(")", 1)[1].split()[0] == "Z":
+                break
+        except OSError:
+            break
+        time.sleep(0.01)
+
+    def probe(fn):
+        try:
+            v = fn()
+            return "ok" if v else "ok-empty"
+        except OSError as e:
+            return errno.errorcode[e.errno]
+
+    def live(name):
+        base = "/proc/%d/%s" % (pid, name)
+        if name in ("exe", "cwd"):
+            return probe(lambda: os.readlink(base))
+        if name in ("fd", "task", "fdinfo"):
+            return probe(lambda: os.listdir(base))
+        return probe(lambda: open(base, "rb").read())
+    w = World()
+    p = w.spawn(pid, comm=b"z", ppid=1, start=1)
+    w.exit(pid)
+
+    def sim(name):
+        base = "/proc/%d/%s" % (pid, name)
+        if name in ("exe", "cwd"):
+            return probe(lambda: w.sys_readlink(base))
+        if name in ("fd", "task", "fdinfo"):
+            return probe(lambda: w.sys_listdir(base))
+        return probe(lambda: w.sys_open(base).readall())
+    names = ["stat", "status", "io", "cmdline", "environ", "statm", "smaps", "smaps_rollup", "exe", "cwd", "fd", "task", "fdinfo"]
+    try:
+        diff = {n: (live(n), sim(n)) for n in names if live(n) != sim(n)}
+    finally:
+        os.waitpid(pid, 0)
+    gone_live = probe(lambda: open("/proc/%d/stat" % pid, "rb").read())
+    w.reap(pid)
+    gone_sim = probe(lambda: w.sys_open("/proc/%d/stat" % pid).readall())
+    if gone_live != gone_sim:
+        diff["stat-after-reap"] = (gone_live, gone_sim)
+    if diff:
+        raise core.Machinery("simkernel's zombie access matrix differs from this kernel's (live, sim): %r" % diff)
+    ctx.cov["calibration"] = {"zombie_matrix_entries_compared": len(names) + 1, "mismatches": 0}
+
+
 def check(ctx):
+    calibrate(ctx)
     forkpool.start(16, init=template)
     thorough = ctx.tier == "thorough"
     ctx.cov["rule"] = ("cases = (method, fault plan) pairs: every access index of every Linux Process query x "
